@@ -139,9 +139,37 @@ def freshFrom (fresh : Bool) : List MStep → Bool
 
 def freshAfterEviction (tr : List MStep) : Bool := freshFrom false tr
 
+/-- a join in flight makes progress: whenever a started, not stopping member has its join coroutine
+    alive (`_rejoin_d`), one of the coroutine's client requests (coordinator look-up, metadata load,
+    JoinGroup, leader partition load, SyncGroup) is outstanding — counted from the observed requests,
+    processed replies and observed cancellations — or a consumer is draining (`on_join_prepare`, or a
+    `stop()` that the join waits behind).  A coroutine parked with nothing to wake it is a wedge. -/
+def isProtoReqOb : Ob → Bool
+  | .coordLookup | .loadMeta | .join _ | .loadParts | .sync .. => true
+  | _ => false
+def isProtoReply : Ev → Bool
+  | .coordDone _ | .metaDone _ | .joinDone _ | .partsDone _ | .syncDone _ => true
+  | _ => false
+def isProtoCancel : Ob → Bool
+  | .cancelReq .coordR | .cancelReq .metaR | .cancelReq .joinR | .cancelReq .partsR | .cancelReq .syncR => true
+  | _ => false
+
+def outstandingAfter (n : Nat) (m : MStep) : Nat :=
+  let n0 := if isProtoReply m.ev && m.obs != [.badOp] then n - 1 else n
+  m.obs.foldl (fun k o => if isProtoReqOb o then k + 1 else if isProtoCancel o then k - 1 else k) n0
+
+def joinProgressFrom (n : Nat) : List MStep → Bool
+  | [] => true
+  | m :: ms =>
+    let n' := outstandingAfter n m
+    (!(m.snap.started && !m.snap.stopping && m.snap.joinInFlight) || decide (n' ≥ 1) ||
+      m.snap.cons.any (fun c => c.phase == .draining)) && joinProgressFrom n' ms
+
+def joinProgress (tr : List MStep) : Bool := joinProgressFrom 0 tr
+
 def checks (cfg : Cfg) : List (String × (List MStep → Bool)) :=
   [("neverIdle", neverIdle), ("retriableRejoins", retriableRejoins cfg), ("fatalSurfaces", fatalSurfaces),
-   ("escapeSurfaces", escapeSurfaces), ("freshAfterEviction", freshAfterEviction)]
+   ("escapeSurfaces", escapeSurfaces), ("freshAfterEviction", freshAfterEviction), ("joinProgress", joinProgress)]
 
 def failing (cfg : Cfg) (tr : List MStep) : List String := ((checks cfg).filter fun c => !c.2 tr).map (·.1)
 
